@@ -84,6 +84,9 @@ LogP(x, p) == IF x = 1 THEN 0 ELSE 1 + LogP(x \div p, p)
 FactorOK == E.fn = "factor_prime_power" =>
               IF IsPrimePower(E.x) THEN E.exc = "" /\ E.r1 = LeastFactor(E.x) /\ E.r2 = LogP(E.x, E.r1)
               ELSE E.exc = "ValueError"
+\* prime powers too large for TLC's integers: the harness builds x = p^d itself and passes only (p, d) = (E.x, E.n)
+FactorBigOK == (E.fn = "factor_prime_power_of" /\ IsPrime(E.x) /\ E.n >= 1) =>
+                  (E.exc = "" /\ E.r1 = E.x /\ E.r2 = E.n)
 \* ratrec(x, y, N, D) = (n, d): n = x d (mod y), |n| <= N, 0 < d <= D, gcd(n, d) = 1; ValueError iff no such pair
 RatrecOK == E.fn = "ratrec" =>
   LET Good(n, d) == Mod(n - E.x * d, E.y) = 0 /\ Gcd(n, d) = 1
